@@ -836,7 +836,7 @@ impl Engine for E7 {
                 out.violate(&["C17", "C20"], c, d.clone());
             } else if c == "macro.late-set-panicked" {
                 // "later sets are ignored and never disturb it" is C18's
-                out.violate(&["C18", "C20"], c, d.clone());
+                out.violate(&["C17", "C18", "C20"], c, d.clone());
             } else {
                 out.violate(&["C17"], c, d.clone());
             }
